@@ -220,7 +220,7 @@ where
         }
 
         // VendorID must be unspecified (0) or in valid range expected.
-        if VendorId::is_valid_operationally(self.vid)
+        if !VendorId::is_valid_operationally(self.vid)
             && (self.vid != VendorId::CommonOrUnspecified as u16)
         {
             return false;
